@@ -1498,9 +1498,9 @@ pub fn event_hook(id: u32, arg: usize) {
         w(|w| {
             let (a, u) = w.first_read.get(me).copied().unwrap_or((0, 0));
             if a == arg && u != now {
-                w.markers.push(format!(
-                    "aba-paid-debt: fast path read the pointer of uid={}, the address was reused for uid={}, a writer paid the stale debt and the load returns uid={}",
-                    u, now, now
+                crate::marks::mark(format!(
+                    "aba-paid-debt: fast path read the pointer of an object, the address was reused for another object (uid {} -> {}), a writer paid the stale debt and the load returns the other object",
+                    u, now
                 ));
             }
         });
